@@ -47,6 +47,10 @@ type Prog struct {
 func loadProg(dir string, tags string, patterns ...string) (*Prog, error) {
 	os.Unsetenv("GOWORK")
 	env := append(os.Environ(), "GOFLAGS=-mod=mod", "GOPROXY=off", "GOSUMDB=off", "GOTOOLCHAIN=local", "GOWORK=off")
+	if goos := os.Getenv("YQCHECK_GOOS"); goos != "" {
+		// cross-target load (thorough tier): covers files excluded by GOOS build constraints
+		env = append(env, "GOOS="+goos, "CGO_ENABLED=0")
+	}
 	cfg := &packages.Config{
 		Mode:  packages.LoadAllSyntax,
 		Dir:   dir,
